@@ -163,6 +163,9 @@ func (m *Machine) Choose(key string, n int) int {
 		return v
 	}
 	idx := len(m.recorded)
+	if idx >= maxDecisions {
+		m.abort("decision limit reached at %s (loop that forks on every iteration?)", key)
+	}
 	opt := 0
 	if idx < len(m.decisions) {
 		opt = m.decisions[idx]
@@ -195,6 +198,9 @@ func (m *Machine) NewBytes(name string, elems []Val) SliceV {
 	return SliceV{O: o, Len: int64(len(elems)), Cap: int64(len(elems))}
 }
 
+// maxDecisions bounds the forks of one path.
+const maxDecisions = 600
+
 // Explore enumerates every path of fn. setup builds the arguments afresh for
 // each path (it may itself fork); done, if non-nil, inspects final memory.
 func (m *Machine) Explore(fn *ssa.Function, setup func(m *Machine) []Val, done func(m *Machine, p *Path)) []*Path {
@@ -209,8 +215,17 @@ func (m *Machine) Explore(fn *ssa.Function, setup func(m *Machine) []Val, done f
 	}
 	var paths []*Path
 	m.decisions = nil
+	limited := 0
 	for {
 		p := m.runOnce(fn, setup)
+		if strings.Contains(p.Abort, "limit reached") {
+			// every such path is undecided anyway: do not enumerate an unbounded tree
+			limited++
+			if limited >= 16 {
+				paths = append(paths, p, &Path{Abort: "exploration stopped: " + p.Abort})
+				break
+			}
+		}
 		if done != nil && p.Abort == "" {
 			func() {
 				defer func() {
